@@ -5,15 +5,15 @@ open Lean Shelx.J
 /-
   C19 driver.  One request = one history:
 
-    {"p":"C19","op":"seq","fix":{"stat":b,"lst":b,"stale":b,"acta":b}?,          -- default: all repairs present
+    {"p":"C19","op":"seq","fix":{"stat":b,"lst":b,"stale":b,"acta":b,"dow":b?}?,          -- default: all repairs present
      "table":[{"label":s,"size":n,"doc":DOC,"dow":b}],                          -- what the parser says about raw contents
      "init":STATE,
      "steps":[{"cycles":n|null,"backup":b,"exit":n,"res":{"wrote":s}|"removed"|"untouched","lst":"good|missing|raises|quiet",
                "obs":{"st":STATE,"raised":b}}]}                                 -- what the implementation did
 
   File contents are symbolic (`Sym`): `raw label` — bytes the harness knows by hash (initial .res, an old .shx-bak, what
-  the stand-in wrote); `written d` / `garbled d` — what `write_shelx_file` produces for document `d` with intact / shifted
-  delete_on_write bookkeeping (the harness parses the real .ins back to a document to compare).
+  the stand-in wrote); `written d` — what `write_shelx_file` produces for document `d` (the harness parses the real .ins
+  back to a document to compare); `garbled d` — legacy only (`fix.dow = false`): shifted delete_on_write bookkeeping.
 
   Answer: the model's own trace (from `init`, each call from the model's previous state), `specStep` clause by clause
   evaluated on the OBSERVED states (pre = previous observation), the hypotheses of the theorems at each step, and
@@ -94,7 +94,11 @@ def callOf (j : Json) : Except String (Call Sym) := do
 def fixOf (j : Json) : Except String Fix :=
   match fieldOpt j "fix" with
   | none => pure Fix.all
-  | some f => do pure ⟨← boolField f "stat", ← boolField f "lst", ← boolField f "stale", ← boolField f "acta"⟩
+  | some f => do
+    let dow ← match fieldOpt f "dow" with
+      | none => pure true
+      | some v => bool v
+    pure ⟨← boolField f "stat", ← boolField f "lst", ← boolField f "stale", ← boolField f "acta", dow⟩
 
 def ofDoc (d : Doc String) : Json :=
   Json.mkObj [("acta", match d.acta with
@@ -139,8 +143,7 @@ def handle (j : Json) : Except String Json := do
     for s in steps do
       let call ← callOf s
       let r := refine fix c mst call
-      let hyp := Json.mkObj [("insync", Json.bool (inSync mst.mem)), ("plausible", Json.bool (plausible c mst.fs.res call.out)),
-                             ("calm", Json.bool (calm c mst.fs.res call.out))]
+      let hyp := Json.mkObj [("plausible", Json.bool (plausible c mst.fs.res call.out))]
       model := model.push (Json.mkObj [("st", ofSt r.st), ("exc", excName r.exc), ("hyp", hyp),
                                        ("meets_spec", Json.bool (specStep c mst call r))])
       mst := r.st
